@@ -83,13 +83,17 @@ def run(res, a):
         delays = {"rset": dist(rnd.choice([1, 2, 3])), "r2owa": dist(rnd.choice([1, 2, 4])), "nop": dist(1), "j": dist(rnd.choice([1, 2]))}
         dl_reqs.append(dict(q, n=4, conc=0, delays=delays))
         dl_reqs.append(dict(q, n=160, conc=16, delays=delays))
+    # the same with the outputs shown in a dynamically created number type (registered by the first, sequential, call)
+    for q in rep_reqs[:1 if a.tier == "quick" else 3]:
+        dl_reqs.append(dict(q, n=4, conc=0, datatype="fps8f4"))
+        dl_reqs.append(dict(q, n=160, conc=16, datatype="fps8f4"))
     pdl = C.sh([C.BMH, "c17"], input="".join(json.dumps(r) + "\n" for r in dl_reqs), timeout=1800, check=False)
     dl = C.jsonl(pdl.stdout) if pdl.stdout.strip() else []
     if pdl.returncode != 0 or len(dl) != len(dl_reqs):
         k = min(len(dl), len(dl_reqs) - 1)
         why = [l for l in pdl.stderr.splitlines() if l.startswith("fatal error") or l.startswith("panic")]
-        viol.append(("the process running single-shot simulations with shared opcode delays (four in sequence, then 160 from sixteen concurrent "
-                     "callers) dies: %s" % (why or [pdl.stderr[-300:]])[0], {"sim": dl_reqs[min(k | 1, len(dl_reqs) - 1)]}))
+        viol.append(("the process running single-shot simulations (shared opcode delays, dynamic number type; four in sequence, then 160 from sixteen "
+                     "concurrent callers) dies: %s" % (why or [pdl.stderr[-300:]])[0], {"sim": dl_reqs[min(k | 1, len(dl_reqs) - 1)]}))
     else:
         for j in range(0, len(dl_reqs), 2):
             sq, cq = dl[j], dl[j + 1]
@@ -104,11 +108,11 @@ def run(res, a):
     if a.tier == "quick" and not viol:
         # the race detector on the shared-delay scenario only (an incremental build; the thorough tier runs everything under it)
         rb = C.build_harness(race=True)
-        small = [dict(q, n=min(q["n"], 32), conc=min(q["conc"], 8)) for q in dl_reqs[:2]]
+        small = [dict(q, n=min(q["n"], 32), conc=min(q["conc"], 8)) for q in dl_reqs[:2] + dl_reqs[-2:]]
         p = C.sh([rb, "c17"], input="".join(json.dumps(r) + "\n" for r in small), timeout=1200, check=False)
         race = "DATA RACE" in p.stderr
         if race:
-            viol.append(("the race detector reports a data race between single-shot simulations sharing opcode delays: %s"
+            viol.append(("the race detector reports a data race between concurrent single-shot simulations (shared opcode delays / dynamic number type): %s"
                          % p.stderr[p.stderr.find("DATA RACE"):][:600], {"sim": small[-1]}))
     if a.tier == "thorough":
         rb = C.build_harness(race=True)
